@@ -1,0 +1,117 @@
+//go:build verif
+
+// Read-only accessors for the verification harness (/verif). This file is only
+// compiled with the `verif` build tag; it adds no behaviour to the policy.
+
+package balloons
+
+import (
+	"sort"
+
+	libmem "github.com/containers/nri-plugins/pkg/resmgr/lib/memory"
+	policyapi "github.com/containers/nri-plugins/pkg/resmgr/policy"
+)
+
+// VerifBalloon is a snapshot of one balloon instance.
+type VerifBalloon struct {
+	Name       string              `json:"name"` // def[instance]
+	Def        string              `json:"def"`
+	Instance   int                 `json:"inst"`
+	Cpus       []int               `json:"cpus"`
+	SharedIdle []int               `json:"shared"`
+	Mems       []int               `json:"mems"`
+	Pods       map[string][]string `json:"pods"`
+	Ctrs       []string            `json:"ctrs"`
+	ReqMilli   int                 `json:"reqmilli"` // sum of the requests of its containers
+}
+
+// VerifDef is a snapshot of a balloon type after builtin types have been filled in.
+type VerifDef struct {
+	Name         string   `json:"name"`
+	MinCpus      int      `json:"mincpus"`
+	MaxCpus      int      `json:"maxcpus"`
+	MinBalloons  int      `json:"minballoons"`
+	MaxBalloons  int      `json:"maxballoons"`
+	Namespaces   []string `json:"namespaces"`
+	ShareIdle    string   `json:"shareidle"`
+	HideHT       bool     `json:"hideht"`
+	PinMemory    bool     `json:"pinmemory"`
+	CpuClass     string   `json:"cpuclass"`
+	PreferNew    bool     `json:"prefernew"`
+	PreferSpread bool     `json:"preferspread"`
+	PreferIsol   bool     `json:"preferisol"`
+}
+
+// VerifState is a snapshot of the balloons policy.
+type VerifState struct {
+	Allowed   []int          `json:"allowed"`
+	Reserved  []int          `json:"reserved"`
+	Free      []int          `json:"free"`
+	PinCPU    bool           `json:"pincpu"`
+	PinMemory bool           `json:"pinmemory"`
+	IdleClass string         `json:"idleclass"`
+	Defs      []VerifDef     `json:"defs"`
+	Balloons  []VerifBalloon `json:"balloons"`
+}
+
+func verifInts(in []int) []int {
+	out := make([]int, 0, len(in))
+	out = append(out, in...)
+	sort.Ints(out)
+	return out
+}
+
+func verifBool(b *bool, dflt bool) bool {
+	if b == nil {
+		return dflt
+	}
+	return *b
+}
+
+// VerifSnapshot returns a read-only snapshot of a balloons backend.
+func VerifSnapshot(b policyapi.Backend) *VerifState {
+	p, ok := b.(*balloons)
+	if !ok || p == nil || p.bpoptions == nil {
+		return nil
+	}
+	s := &VerifState{
+		Allowed:   verifInts(p.allowed.List()),
+		Reserved:  verifInts(p.reserved.List()),
+		Free:      verifInts(p.freeCpus.List()),
+		PinCPU:    verifBool(p.bpoptions.PinCPU, true),
+		PinMemory: verifBool(p.bpoptions.PinMemory, true),
+		IdleClass: p.bpoptions.IdleCpuClass,
+		Defs:      []VerifDef{},
+		Balloons:  []VerifBalloon{},
+	}
+	for _, d := range p.bpoptions.BalloonDefs {
+		s.Defs = append(s.Defs, VerifDef{
+			Name: d.Name, MinCpus: d.MinCpus, MaxCpus: d.MaxCpus, MinBalloons: d.MinBalloons, MaxBalloons: d.MaxBalloons,
+			Namespaces: append([]string{}, d.Namespaces...), ShareIdle: d.ShareIdleCpusInSame.String(),
+			HideHT: verifBool(d.HideHyperthreads, false), PinMemory: verifBool(d.PinMemory, s.PinMemory),
+			CpuClass: d.CpuClass, PreferNew: d.PreferNewBalloons, PreferSpread: d.PreferSpreadingPods, PreferIsol: d.PreferIsolCpus,
+		})
+	}
+	for _, bln := range p.balloons {
+		pods := map[string][]string{}
+		for pod, ctrs := range bln.PodIDs {
+			pods[pod] = append([]string{}, ctrs...)
+		}
+		ctrs := bln.ContainerIDs()
+		sort.Strings(ctrs)
+		s.Balloons = append(s.Balloons, VerifBalloon{
+			Name: bln.PrettyName(), Def: bln.Def.Name, Instance: bln.Instance,
+			Cpus: verifInts(bln.Cpus.List()), SharedIdle: verifInts(bln.SharedIdleCpus.List()),
+			Mems: verifInts(bln.Mems.Members()), Pods: pods, Ctrs: ctrs, ReqMilli: p.requestedMilliCpus(bln),
+		})
+	}
+	return s
+}
+
+// VerifAllocator returns the policy's memory allocator (read-only use).
+func VerifAllocator(b policyapi.Backend) *libmem.Allocator {
+	if p, ok := b.(*balloons); ok && p != nil {
+		return p.memAllocator
+	}
+	return nil
+}
